@@ -379,6 +379,8 @@ def same(a, b, cmp="auto", tol=1e-6):
             # elements may be collections: compare position-wise as multisets
             A = [np.asarray(x.array) for x in a]
             B = [np.asarray(x.array) for x in b]
+            if len(A) == len(B) and all(x.shape == y.shape and np.array_equal(x, y, equal_nan=True) for x, y in zip(A, B)):
+                return True, ""  # identical lists (also of degenerate all-zero / nan "points") agree
             if A and A[0].ndim > naxes_of(a[0]):
                 # collection-valued list: compare per position
                 if len(A) != len(B) or any(x.shape != y.shape for x, y in zip(A, B)):
